@@ -92,10 +92,11 @@ def main(run):
     b = BOUNDS[run.tier]
     run.bounds = {"previous environment": "every env directory absent or present with one arbitrary stale file (symbolic name and content)",
                   "new environment": "empty | 1 entry (4 scopes x 5 behaviours) | 2 entries in one scope (all behaviour pairs) | 2 entries in two scopes (all scope pairs)",
+                  "read side": "env/, env.build/ or env.launch/ holding two files <stem><tail> (stem an SMT string over the same alphabet, tail one of '', the five suffixes, '.bogus', '.') with arbitrary contents and optionally a sub-directory",
                   "entry": f"name = SMT string over {{A . x 0xFF}}, length 1..{b['name_len']}; value = arbitrary string", "bystander": "one plain file in the layer"}
     run.assumptions = ["OsString = string of code units (0xFF stands for a non-UTF-8 byte)", "names contain neither '/' nor NUL (the statement's quantifier)",
                        "Path::file_stem/extension as documented by std (split at the last dot; leading-dot rule)"]
-    run.outside = ["longer names/values, more entries", "spec-shaped directories not produced by libcnb (suffix-less / unknown suffix files): planned"]
+    run.outside = ["longer names/values, more entries", "more than two foreign files per directory on the read side"]
     P = run.program(CRATES)
     summ_core.install(P)
     summ_coll.install(P)
@@ -287,6 +288,133 @@ def main(run):
             run.candidate(role, f"new={[(e['scope'], e['behavior'], bytes(e['name']).decode('latin1')) for e in req['new']]} -> {viol}", req, bool(viol))
 
 
+    read_side(run, P, le_read, env_view, b)
+
+
+TAILS = ["", ".append", ".default", ".delim", ".override", ".prepend", ".bogus", "."]
+TAIL_BEH = {".append": "Append", ".default": "Default", ".delim": "Delimiter", ".override": "Override", ".prepend": "Prepend"}
+
+
+def read_side(run, P, le_read, env_view, b):
+    """spec-shaped env directories that libcnb did not write: two files `<stem><tail>` (stem an SMT string that may contain dots and a
+    non-UTF-8 byte, tail one of TAILS) and optionally a sub-directory, in env/, env.build/ or env.launch/; reading must give exactly:
+    known suffix -> that behaviour for <stem>; no suffix (no dot after the first character) -> override; anything else ignored."""
+    RD = {"All": "env", "Build": "env.build", "Launch": "env.launch"}
+
+    def world(ctx):
+        w = World(ctx)
+        w.add("/L", DIR)
+        w.add(LD, DIR)
+        summ_dyn.enable(w, [f"{LD}/{d}" for d in RD.values()])
+        return w
+
+    def entry(ctx):
+        w = ctx.world
+        sc = ["All", "Build", "Launch"][ctx.choose([True] * 3, "read-scope")]
+        d = f"{LD}/{RD[sc]}"
+        w.add(d, DIR)
+        dd = DynDir()
+        files = []
+        from mirsym.summ_fs import Node
+        for i in range(2):
+            tail = TAILS[ctx.choose([True] * len(TAILS), f"tail{i}")]
+            stem, val = z3.String(f"r_stem{i}"), z3.String(f"r_val{i}")
+            ctx.assume(z3.And(z3.InRe(stem, z3.Plus(alpha())), z3.Length(stem) <= b["name_len"]))
+            name = summ_core.concat([stem, tail]) if tail else stem
+            ctx.assume(z3.And(S(name) != z3.StringVal("."), S(name) != z3.StringVal("..")))
+            dd.entries.append([name, Node(FILE, content=val)])
+            files.append((stem, tail, val, name))
+        ctx.assume(S(files[0][3]) != S(files[1][3]))
+        # two files must not denote the same (behaviour, variable): which one wins would depend on the directory order
+        b0, b1 = TAIL_BEH.get(files[0][1], "Override" if files[0][1] == "" else None), TAIL_BEH.get(files[1][1], "Override" if files[1][1] == "" else None)
+        if b0 is not None and b0 == b1:
+            ctx.assume(files[0][0] != files[1][0])
+        has_sub = sc != "Launch" and ctx.choose([True, True], "sub-directory") == 1
+        if has_sub:
+            dd.entries.append(["subdir", Node(DIR)])
+        w.dyn[d] = dd
+        ctx.rs = dict(scope=sc, files=files, sub=has_sub)
+        r = deref(P.call(ctx, le_read, [LD], tyenv={}))
+        return {"read": r.variant, "env": r.fields[0] if r.variant == "Ok" else None, "err": repr(deref(r.fields[0])) if r.variant != "Ok" else None}
+
+    res = run.explore(P, entry, lambda ctx: [], world, max_paths=2000000, max_depth=50)
+    run.log(f"read side: {len(res)} paths")
+    pending = []
+    n = 0
+    for ctx, (kind, out) in res:
+        if kind != "return":
+            run.inconclusive.append(f"read-side path ends with {kind}: {str(out)[:200]}")
+            continue
+        n += 1
+        rs = ctx.rs
+        want = [x for f in rs["files"] for x in (f[0], f[2])]
+        exp = []
+        for stem, tail, val, name in rs["files"]:
+            if tail in TAIL_BEH:
+                exp.append((z3.BoolVal(True), TAIL_BEH[tail], stem, val))
+            elif tail == "":
+                # suffix-less <=> no dot after the first character (std: the extension is what follows the last dot that is not the first character)
+                inner = z3.Contains(z3.SubString(stem, 1, z3.Length(stem)), z3.StringVal("."))
+                exp.append((z3.Not(inner), "Override", stem, val))
+        run.obligation()
+        if out["read"] != "Ok":
+            cl = z3.BoolVal(False)
+            sig = "read:spec-shaped-directory-rejected"
+        else:
+            view = env_view(out["env"])
+            got = view[rs["scope"]]
+            others = [it for s_ in ("All", "Build", "Launch") if s_ != rs["scope"] for it in view[s_]] + [it for v in view["process"].values() for it in v]
+            cs = [z3.BoolVal(not others)]
+            for c, beh, nm, val in exp:
+                cs.append(z3.Implies(c, z3.Or([z3.And(z3.BoolVal(gb == beh), S(gn) == nm, S(gv) == val) for gb, gn, gv in got] or [z3.BoolVal(False)])))
+            for gb, gn, gv in got:
+                cs.append(z3.Or([z3.And(c, z3.BoolVal(gb == beh), S(gn) == nm, S(gv) == val) for c, beh, nm, val in exp] or [z3.BoolVal(False)]))
+            cl = z3.And(cs)
+            sig = "read:environment-differs-from-spec-reading"
+        ans, m = run.check(ctx.pc + [z3.Not(cl)], sig, want=want, timeout_ms=20000)
+        if ans == "sat":
+            pending.append((ctx, m, out, sig, exp))
+        elif n % (9 if run.tier == "quick" else 4) == 0:
+            ans, m = run.check(ctx.pc, "witness", want=want, timeout_ms=20000)
+            if ans == "sat":
+                pending.append((ctx, m, out, None, exp))
+    run.extra.setdefault("outcomes", {})["read-side"] = n
+    cands = [p for p in pending if p[3]]
+    wit = [p for p in pending if not p[3]]
+    pending = cands[:20] + wit[:120]
+    enc = lambda s_: [ord(ch) for ch in s_]
+    reqs = []
+    for ctx, m, out, sig, exp in pending:
+        rs = ctx.rs
+        files = [{"name": enc(summ_core.eval_str(ctx, m, nm)), "content": enc(m.str(val)), "kind": "file"} for stem, tail, val, nm in rs["files"]]
+        if rs["sub"]:
+            files.append({"name": enc("subdir"), "kind": "dir"})
+        expected = []
+        for (stem, tail, val, nm) in rs["files"]:
+            st = m.str(stem)
+            if tail in TAIL_BEH:
+                expected.append({"scope": rs["scope"].lower(), "behavior": SUFFIX[TAIL_BEH[tail]], "name": enc(st), "value": enc(m.str(val))})
+            elif tail == "" and "." not in st[1:]:
+                expected.append({"scope": rs["scope"].lower(), "behavior": "override", "name": enc(st), "value": enc(m.str(val))})
+        reqs.append({"op": "env-read", "dir": RD[rs["scope"]], "files": files, "expected": expected})
+    reals = run.replay.run(reqs)
+    for (ctx, m, out, sig, exp), req, real in zip(pending, reqs, reals):
+        if "panic" in real or "error" in real:
+            run.mismatch(f"replay driver failed: {real} on {req}")
+            continue
+        ok_real = real.get("read") == "Ok" and real.get("equal")
+        names = [bytes(f["name"]).decode("latin1") for f in req["files"]]
+        if sig is None:
+            if not ok_real or out["read"] != "Ok":
+                run.mismatch(f"read side: model read={out['read']} and spec-conform, real {real} for files {names}")
+                continue
+            run.stats["validated"] += 1
+            run.sample({"read-side files": names, "expected": [(e["behavior"], bytes(e["name"]).decode("latin1")) for e in req["expected"]]}, limit=6)
+        else:
+            run.stats["validated"] += 1
+            run.candidate(sig, f"files {names} in {req['dir']}/ read as {real.get('debug', real.get('read'))}; expected {[(e['behavior'], bytes(e['name']).decode('latin1')) for e in req['expected']]}", req, not ok_real)
+
+
 def real_violation(req, real):
     if real.get("write") != "Ok":
         return f"write failed: {real.get('write')}"
@@ -315,5 +443,8 @@ def finalize(run):
 
 def replay(run, scen):
     real = run.replay.run([scen["scenario"]])[0]
+    if scen["scenario"].get("op") == "env-read":
+        print(json.dumps({"real": real, "violation": None if (real.get("read") == "Ok" and real.get("equal")) else "environment read differs from the spec reading"}))
+        return 0
     print(json.dumps({"real": real, "violation": real_violation(scen["scenario"], real)}))
     return 0
